@@ -21,14 +21,18 @@ CONSTANTS Cpus,            \* available CPUs
           Defs,            \* balloon types: set of [name, mincpus, maxcpus (0 = unlimited), minballoons, maxballoons (0 = unlimited), shareidle]
           Ctrs,            \* containers
           Reqs,            \* possible CPU requests (mCPU)
-          ClassDeviation   \* "none" | "undo_keeps_type_class" (F-C02-3, fixed 2274836)
+          ClassDeviation,  \* "none" | "undo_keeps_type_class" (F-C02-3, fixed 2274836)
+          CoreOf,          \* [Cpus -> physical core id]  (hyperthread siblings share a core)
+          ShareDeviation   \* "none" | "delete_no_reshare" (F-C02-2) | "repin_self_only" | "inflate_adds_new_only"
 
-VARIABLES blns,            \* set of balloons [def, inst, cpus, ctrs]
+VARIABLES blns,            \* set of balloons [def, inst, cpus, ctrs, shared]; `shared` is STORED and maintained incrementally,
+                           \* as Balloon.SharedIdleCpus is by shareIdleCpus(add, remove) -- not recomputed from the idle set
           free,            \* idle CPUs
           reqOf,           \* container -> mCPU, for assigned containers
-          cls              \* CPU -> CPU class configured for it (the balloon type's class, "idle" for idle CPUs)
+          cls,             \* CPU -> CPU class configured for it (the balloon type's class, "idle" for idle CPUs)
+          told             \* container -> the CPU set it was last pinned to (updatePinning writes it for the balloons it is handed)
 
-bvars == <<blns, free, reqOf, cls>>
+bvars == <<blns, free, reqOf, cls, told>>
 \* the classes the CPU controller is told after a step in which `got` CPUs went to a balloon of type dn and `back`
 \* CPUs returned to the idle set
 Reclass(c0, dn, got, back) == [c \in Cpus |-> IF c \in got THEN dn ELSE IF c \in back THEN "idle" ELSE c0[c]]
@@ -45,16 +49,31 @@ SharedOf(b, fr) ==
        ELSE IF L = "system" THEN (IF b.cpus = {} THEN {} ELSE fr)
        ELSE {c \in fr : \E m \in b.cpus : PkgOf[c] = PkgOf[m]}           \* "package"
 
-Topo == {[cpu |-> c, pkg |-> PkgOf[c], die |-> 0, node |-> PkgOf[c], core |-> c, isolated |-> FALSE] : c \in Cpus}
+\* shareIdleCpus(add, remove) of the code, applied to a set of balloons: every balloon first loses `remove` from its
+\* stored shared set, then gains the CPUs of `add` that lie in its sharing scope (evaluated on the balloon's CPUs of NOW).
+\* Nothing else is ever dropped: a balloon that deflated out of a package keeps that package's idle CPUs shared.
+ShareIdle(bs, add, remove) == {[b EXCEPT !.shared = (@ \ remove) \cup SharedOf(b, add)] : b \in bs}
+\* ... and the balloons it returns for re-pinning: those whose stored set changed
+Changed(bs, add, remove) == {[def |-> b.def, inst |-> b.inst] : b \in {b \in bs : (b.shared \ remove) \cup SharedOf(b, add) # b.shared}}
+Key(b) == [def |-> b.def, inst |-> b.inst]
+
+\* SingleThreadForCPUs: the lowest thread of every physical core touched
+OneThread(S) == {c \in S : \A x \in S : CoreOf[x] = CoreOf[c] => c <= x}
+PinSet(b) == IF DefByName(b.def).hideht THEN OneThread(b.cpus \cup b.shared) ELSE b.cpus \cup b.shared
+\* updatePinning(balloons with a key in ks): every member container is told the balloon's pin set
+Repin(t0, bs, ks) == [c \in DOMAIN t0 |-> IF \E b \in bs : c \in b.ctrs /\ Key(b) \in ks
+                                         THEN PinSet(CHOOSE b \in bs : c \in b.ctrs) ELSE t0[c]]
+
+Topo == {[cpu |-> c, pkg |-> PkgOf[c], die |-> 0, node |-> PkgOf[c], core |-> CoreOf[c], isolated |-> FALSE] : c \in Cpus}
 
 \* the state as a snapshot in the shape BalloonPreds expects
 Snapshot ==
     [allowed |-> SetToSeq(Cpus), reserved |-> <<>>, free |-> SetToSeq(free), pincpu |-> TRUE, pinmemory |-> TRUE, idleclass |-> "idle",
      defs |-> SetToSeq({[name |-> d.name, mincpus |-> d.mincpus, maxcpus |-> d.maxcpus, minballoons |-> d.minballoons,
-                         maxballoons |-> d.maxballoons, shareidle |-> d.shareidle, hideht |-> FALSE, pinmemory |-> TRUE,
+                         maxballoons |-> d.maxballoons, shareidle |-> d.shareidle, hideht |-> d.hideht, pinmemory |-> TRUE,
                          cpuclass |-> d.name] : d \in Defs}),
      balloons |-> SetToSeq({[name |-> <<b.def, b.inst>>, def |-> b.def, inst |-> b.inst, cpus |-> SetToSeq(b.cpus),
-                             shared |-> SetToSeq(SharedOf(b, free)), ctrs |-> SetToSeq(b.ctrs), reqmilli |-> ReqMilli(b)] : b \in blns})]
+                             shared |-> SetToSeq(b.shared), ctrs |-> SetToSeq(b.ctrs), reqmilli |-> ReqMilli(b)] : b \in blns})]
 
 InstancesOf(n) == {b \in blns : b.def = n}
 NextInst(n)    == CHOOSE i \in 0 .. Cardinality(Ctrs) + 2 : ~\E b \in InstancesOf(n) : b.inst = i
@@ -65,41 +84,73 @@ PreCreate(todo, bs, fr) ==
     IF todo = {} THEN [blns |-> bs, free |-> fr]
     ELSE LET t == CHOOSE t \in todo : TRUE
              X == CHOOSE X \in kSubset(t.d.mincpus, fr) : TRUE
-         IN PreCreate(todo \ {t}, bs \cup {[def |-> t.d.name, inst |-> t.i, cpus |-> X, ctrs |-> {}]}, fr \ X)
+         IN PreCreate(todo \ {t}, bs \cup {[def |-> t.d.name, inst |-> t.i, cpus |-> X, ctrs |-> {}, shared |-> {}]}, fr \ X)
 
+\* setConfig: after all pre-created balloons exist, shareIdleCpus(freeCpus, {})
 Init ==
     LET todo == {[d |-> d, i |-> i] : d \in Defs, i \in 0 .. 1}
         need == {t \in todo : t.i < t.d.minballoons}
         r == PreCreate(need, {}, Cpus)
-    IN /\ blns = r.blns /\ free = r.free /\ reqOf = <<>>
+    IN /\ blns = ShareIdle(r.blns, r.free, {}) /\ free = r.free /\ reqOf = <<>> /\ told = <<>>
        /\ cls = [c \in Cpus |-> IF \E b \in r.blns : c \in b.cpus THEN (CHOOSE b \in r.blns : c \in b.cpus).def ELSE "idle"]
 
-\* resize balloon b to n CPUs: take from / return to the idle set (nondeterministic choice of CPUs)
-Resized(b, n, fr) ==
-    LET k == Cardinality(b.cpus)
-    IN IF n >= k
-       THEN {[b2 |-> [b EXCEPT !.cpus = @ \cup X], fr2 |-> fr \ X] : X \in kSubset(n - k, fr)}
-       ELSE {[b2 |-> [b EXCEPT !.cpus = @ \ X], fr2 |-> fr \cup X] : X \in kSubset(k - n, b.cpus)}
+(* The policy's steps, as functions on a working state s = [bs, fr, t] (p.balloons, p.freeCpus, the cpusets told).  An  *)
+(* action of the spec is a composition of these, in the order the code performs them, because WHICH balloons are handed *)
+(* to updatePinning is decided step by step.                                                                            *)
+ByKey(bs, k) == CHOOSE b \in bs : Key(b) = k
+\* p.updatePinning(p.shareIdleCpus(add, remove)...) followed by p.updatePinning(the balloons with a key in `also`)
+DoShare(s, add, remove, also) ==
+    LET bs2 == ShareIdle(s.bs, add, remove)
+        ks  == IF ShareDeviation = "repin_self_only" THEN also ELSE Changed(s.bs, add, remove) \cup also
+    IN [bs |-> bs2, fr |-> s.fr, t |-> Repin(s.t, bs2, ks)]
+\* resizeBalloon(balloon k, n CPUs) on an official balloon (nondeterministic choice of CPUs); same size: return at once
+Resize(s, k, n) ==
+    LET b == ByKey(s.bs, k)
+        sz == Cardinality(b.cpus)
+    IN IF n = sz THEN {s}
+       ELSE IF n > sz
+       THEN {DoShare([bs |-> (s.bs \ {b}) \cup {[b EXCEPT !.cpus = @ \cup X]}, fr |-> s.fr \ X, t |-> s.t],
+                     IF ShareDeviation = "inflate_adds_nothing" THEN {} ELSE s.fr \ X, X, {k}) : X \in kSubset(n - sz, s.fr)}
+       ELSE {DoShare([bs |-> (s.bs \ {b}) \cup {[b EXCEPT !.cpus = @ \ X]}, fr |-> s.fr \cup X, t |-> s.t], X, {}, {k}) : X \in kSubset(sz - n, b.cpus)}
+\* newBalloon + making it official: the type's minimum CPUs are taken while the balloon is not yet in p.balloons (the
+\* others lose them from their shared sets), then it is appended and, if it has CPUs, shareIdleCpus(freeCpus, its CPUs)
+NewBalloon(s, dn) ==
+    LET d == DefByName(dn)
+    IN {LET s1 == IF X0 = {} THEN s ELSE DoShare([s EXCEPT !.fr = @ \ X0], s.fr \ X0, X0, {})
+            nb == [def |-> dn, inst |-> NextInst(dn), cpus |-> X0, ctrs |-> {}, shared |-> {}]
+            s2 == [s1 EXCEPT !.bs = @ \cup {nb}]
+        IN IF X0 = {} THEN s2 ELSE DoShare(s2, s2.fr, X0, {})
+        : X0 \in kSubset(d.mincpus, s.fr)}
+
+Cur == [bs |-> blns, fr |-> free, t |-> told]
 
 Allocate(c, dn, r) ==
     /\ c \notin DOMAIN reqOf
     /\ LET d == DefByName(dn)
            existing == InstancesOf(dn)
            canNew   == (d.maxballoons = 0 \/ Cardinality(existing) < d.maxballoons) /\ Cardinality(free) >= (IF d.mincpus > 1 THEN d.mincpus ELSE 1)
-           cands    == existing \cup (IF canNew THEN {[def |-> dn, inst |-> NextInst(dn), cpus |-> {}, ctrs |-> {}]} ELSE {})
-       IN \E b \in cands :
-            LET n == Want(d, IF ReqMilli(b) + r < 1 THEN 1 ELSE ReqMilli(b) + r)
-            IN /\ 1000 * n >= ReqMilli(b) + r                    \* the clamp must not cut below the requests
-               /\ n - Cardinality(b.cpus) <= Cardinality(free)
-               /\ \E z \in Resized(b, IF n > Cardinality(b.cpus) THEN n ELSE Cardinality(b.cpus), free) :
-                    /\ blns' = (blns \ {b}) \cup {[z.b2 EXCEPT !.ctrs = @ \cup {c}]}
-                    /\ free' = z.fr2
-                    /\ reqOf' = reqOf @@ (c :> r)
-                    /\ cls' = Reclass(cls, dn, z.b2.cpus \ b.cpus, {})
+           k0       == [def |-> dn, inst |-> NextInst(dn)]
+           starts   == {[s |-> Cur, k |-> Key(b), old |-> b.cpus, req |-> ReqMilli(b)] : b \in existing}
+                       \cup (IF canNew THEN {[s |-> s3, k |-> k0, old |-> {}, req |-> 0] : s3 \in NewBalloon(Cur, dn)} ELSE {})
+       IN \E st \in starts :
+            LET b0 == ByKey(st.s.bs, st.k)
+                n  == Want(d, IF st.req + r < 1 THEN 1 ELSE st.req + r)
+                sz == Cardinality(b0.cpus)
+            IN /\ 1000 * n >= st.req + r                         \* the clamp must not cut below the requests
+               /\ n - sz <= Cardinality(st.s.fr)
+               /\ \E s4 \in Resize(st.s, st.k, IF n > sz THEN n ELSE sz) :
+                    LET b4  == ByKey(s4.bs, st.k)
+                        bs5 == (s4.bs \ {b4}) \cup {[b4 EXCEPT !.ctrs = @ \cup {c}]}
+                    IN /\ blns' = bs5
+                       /\ free' = s4.fr
+                       /\ reqOf' = reqOf @@ (c :> r)
+                       /\ told' = Repin(s4.t @@ (c :> {}), bs5, {st.k})          \* assignContainer: updatePinning(bln)
+                       /\ cls' = Reclass(cls, dn, b4.cpus \ st.old, {})
 
 \* a creation that fails AFTER a new balloon was made (newBalloon takes the type's minimum CPUs, inflating to the
-\* request then fails): the undo path deletes the balloon again and its CPUs go back to the idle set.  Nothing
-\* changes -- except, before 2274836, the CPU class of the returned CPUs (F-C02-3).
+\* request then fails): the undo path returns its CPUs to the idle set and re-shares them.  Nothing changes for the
+\* balloons -- except that stale shared CPUs among the returned ones are dropped, and, before 2274836, the CPU class of
+\* the returned CPUs (F-C02-3).
 AllocateUndone(c, dn, r) ==
     /\ c \notin DOMAIN reqOf
     /\ LET d == DefByName(dn)
@@ -107,8 +158,11 @@ AllocateUndone(c, dn, r) ==
        IN /\ d.mincpus >= 1 /\ Cardinality(free) >= d.mincpus /\ n > Cardinality(free)
           /\ (d.maxballoons = 0 \/ Cardinality(InstancesOf(dn)) < d.maxballoons)
           /\ \E X \in kSubset(d.mincpus, free) :
-                cls' = IF ClassDeviation = "undo_keeps_type_class" THEN Reclass(cls, dn, X, {}) ELSE cls
-    /\ UNCHANGED <<blns, free, reqOf>>
+                LET s1 == DoShare([Cur EXCEPT !.fr = @ \ X], free \ X, X, {})
+                    s2 == DoShare([s1 EXCEPT !.fr = free], X, {}, {})
+                IN /\ blns' = s2.bs /\ told' = s2.t
+                   /\ cls' = IF ClassDeviation = "undo_keeps_type_class" THEN Reclass(cls, dn, X, {}) ELSE cls
+    /\ UNCHANGED <<free, reqOf>>
 
 Release(c) ==
     /\ c \in DOMAIN reqOf
@@ -116,15 +170,21 @@ Release(c) ==
            d  == DefByName(b.def)
            b1 == [b EXCEPT !.ctrs = @ \ {c}]
            rq == ReqMilli(b) - reqOf[c]
+           t1 == [x \in DOMAIN told \ {c} |-> told[x]]
+           s1 == [bs |-> (blns \ {b}) \cup {b1}, fr |-> free, t |-> t1]
        IN /\ reqOf' = [x \in DOMAIN reqOf \ {c} |-> reqOf[x]]
           /\ IF b1.ctrs = {}
              THEN IF Cardinality(InstancesOf(b.def)) > d.minballoons
-                  THEN blns' = blns \ {b} /\ free' = free \cup b.cpus /\ cls' = Reclass(cls, b.def, {}, b.cpus)   \* dynamic balloon: deleted
-                  ELSE \E z \in Resized(b1, Clamp(d, 0), free) :
-                         blns' = (blns \ {b}) \cup {z.b2} /\ free' = z.fr2 /\ cls' = Reclass(cls, b.def, z.b2.cpus \ b.cpus, b.cpus \ z.b2.cpus)
+                  THEN LET sd == [bs |-> blns \ {b}, fr |-> free \cup b.cpus, t |-> t1]                       \* dynamic balloon: deleted
+                           s2 == IF b.cpus = {} \/ ShareDeviation = "delete_no_reshare" THEN sd ELSE DoShare(sd, b.cpus, {}, {})
+                       IN blns' = s2.bs /\ free' = s2.fr /\ told' = s2.t /\ cls' = Reclass(cls, b.def, {}, b.cpus)
+                  ELSE \E s2 \in Resize(s1, Key(b), Clamp(d, 0)) :
+                         LET b2 == ByKey(s2.bs, Key(b))
+                         IN blns' = s2.bs /\ free' = s2.fr /\ told' = s2.t /\ cls' = Reclass(cls, b.def, b2.cpus \ b.cpus, b.cpus \ b2.cpus)
              ELSE LET n == Want(d, IF rq < 1 THEN 1 ELSE rq)
-                  IN \E z \in Resized(b1, IF n <= Cardinality(b.cpus) THEN n ELSE Cardinality(b.cpus), free) :
-                        blns' = (blns \ {b}) \cup {z.b2} /\ free' = z.fr2 /\ cls' = Reclass(cls, b.def, {}, b.cpus \ z.b2.cpus)
+                  IN \E s2 \in Resize(s1, Key(b), IF n <= Cardinality(b.cpus) THEN n ELSE Cardinality(b.cpus)) :
+                        LET b2 == ByKey(s2.bs, Key(b))
+                        IN blns' = s2.bs /\ free' = s2.fr /\ told' = s2.t /\ cls' = Reclass(cls, b.def, {}, b.cpus \ b2.cpus)
 
 Next ==
     \/ \E c \in Ctrs, d \in Defs, r \in Reqs : Allocate(c, d.name, r) \/ AllocateUndone(c, d.name, r)
@@ -144,6 +204,11 @@ Inv_SharedIdleCoversScope  == Bad_SharedIdleCoversScope(Snapshot, Topo) = {}
 Inv_MinMaxCpus             == Bad_MinMaxCpus(Snapshot) = {}
 Inv_MinMaxInstances        == Bad_MinMaxInstances(Snapshot) = {}
 Inv_NonEmptyHasCpus        == Bad_NonEmptyHasCpus(Snapshot) = {}
+\* every member is told exactly its balloon's CPUs plus the balloon's stored shared idle CPUs (one thread per core for a
+\* hyperthread-hiding type) -- although only the balloons whose stored shared set CHANGED are re-pinned in each step
+HideOf == [c \in Managed |-> DefByName((CHOOSE b \in blns : c \in b.ctrs).def).hideht]
+Inv_ToldIsCpusPlusShared   == Bad_ToldIsCpusPlusShared(Snapshot, told, Managed, HideOf, Topo) = {}
+Inv_ToldNonEmpty           == \A c \in Managed : told[c] # {}
 \* every CPU carries the class of the balloon that owns it, idle CPUs the idle class (what the CPU controller is told)
 ClsRecords == {[class |-> k, cpus |-> SetToSeq({c \in Cpus : cls[c] = k})] : k \in {cls[c] : c \in Cpus}}
 Inv_CpuClass               == Bad_CpuClass(Snapshot, ClsRecords) = {}
